@@ -234,10 +234,22 @@ def run_walk(level, db, roots, api, bulk=None, policy=None, policy_seed=0, w=Non
         agen = p.walk(strs[0])
     elif api == "pymultiwalk":
         agen = p.multiwalk(strs)
+    elif api == "fetcherwalk":
+        # the documented ``fetcher=`` argument with a fetcher of the caller's own: a pacing
+        # wrapper around the public multigetnext (which hands back no binding once the
+        # agent reports the end of the view)
+        import asyncio
+
+        async def own_fetcher(wanted):
+            await asyncio.sleep(0)
+            return await c.multigetnext(wanted)
+
+        agen = c.multiwalk(oids, fetcher=own_fetcher)
     elif api == "bulkwalk":
-        agen = c.bulkwalk(oids, bulk_size=bulk)
+        # bulk None: the caller leaves bulk_size at its default
+        agen = c.bulkwalk(oids, bulk_size=bulk) if bulk is not None else c.bulkwalk(oids)
     elif api == "pybulkwalk":
-        agen = p.bulkwalk(strs, bulk_size=bulk)
+        agen = p.bulkwalk(strs, bulk_size=bulk) if bulk is not None else p.bulkwalk(strs)
     else:
         raise ValueError(api)
     if reboot_at is not None:
@@ -266,6 +278,7 @@ def run_walk(level, db, roots, api, bulk=None, policy=None, policy_seed=0, w=Non
             w.__dict__["_root_lists"].pop(key, None)
             return ArgumentMutated("the caller's root list was changed by the walk: %r -> %r" % ([str(o) for o in before[0]], [str(o) for o in oids])), [], w
     ys = []
+    w.last_rows = rows
     if api.startswith("py"):
         for vb in rows:
             ys.append((oid_t(vb.oid), ("py", vb.value)))
